@@ -332,6 +332,60 @@ func (c *c06) large(ws []uint64, rng *rand.Rand) {
 	c.distinct[key] = true
 }
 
+// reused: one committee slice re-filled in place with other weights between evaluations (a Membership provider that keeps one
+// buffer per call site, weights updated where they stand): every verdict is about the weights the slice holds at the call.
+func (c *c06) reused(rng *rand.Rand, rounds int) {
+	n := 4 + rng.Intn(6)
+	buf := make([]interfaces.CommitteeMember, n)
+	for i := range buf {
+		buf[i].Id = memberId(i)
+	}
+	all := uint64(1)<<uint(n) - 1
+	for r := 0; r < rounds; r++ {
+		ws := make([]uint64, n)
+		for i := range ws {
+			switch r % 4 {
+			case 0:
+				ws[i] = 1
+			case 1:
+				ws[i] = uint64(10 * (i + 1))
+			case 2:
+				ws[i] = uint64(1)<<uint(40+rng.Intn(20)) + uint64(rng.Intn(5))
+			default:
+				ws[i] = uint64(1 + rng.Intn(9))
+			}
+			buf[i].Weight = primitives.MemberWeight(ws[i])
+		}
+		W := bigSum(ws, all)
+		F := new(big.Int).Div(new(big.Int).Sub(W, big.NewInt(1)), big.NewInt(3))
+		Q := new(big.Int).Sub(W, F)
+		for k := 0; k < 24; k++ {
+			mask := rng.Uint64() & all
+			if k == 0 {
+				mask = all
+			} else if k <= n {
+				mask = 1 << uint(k-1) // singletons: what a stale, lighter threshold lets through first
+			}
+			var l []primitives.MemberId
+			for i := 0; i < n; i++ {
+				if mask&(1<<uint(i)) != 0 {
+					l = append(l, buf[i].Id)
+				}
+			}
+			sw := bigSum(ws, mask)
+			q, _, _ := quorum.IsQuorum(l, buf)
+			h, _, _ := quorum.HasHonest(l, buf)
+			c.evals += 2
+			if q != (sw.Cmp(Q) >= 0) {
+				c.bad("verdict-follows-an-earlier-committee-in-the-same-buffer", "committee slice re-filled in place with weights %v (W=%s, quorum %s): IsQuorum(subset weight %s) = %v", ws, W, Q, sw, q)
+			}
+			if h != (sw.Cmp(F) > 0) {
+				c.bad("verdict-follows-an-earlier-committee-in-the-same-buffer", "committee slice re-filled in place with weights %v (W=%s, f=%s): HasHonest(subset weight %s) = %v", ws, W, F, sw, h)
+			}
+		}
+	}
+}
+
 func countTrue(b []bool) int {
 	n := 0
 	for _, x := range b {
@@ -429,10 +483,14 @@ func CheckC06(run *harness.Run) int {
 		}
 		c.large(ws, rng)
 	}
+	// one committee slice re-filled in place between evaluations
+	for k := 0; k < run.Pick(200, 4000); k++ {
+		c.reused(rng, 6)
+	}
 	cov := map[string]interface{}{
 		"evaluations":         c.evals,
 		"distinct_nontrivial": len(c.distinct),
-		"rule":                "committees of 65..204 members (equal / small / random weights; subsets by density, one member named many times, repeats, strangers); weight vectors: every vector of n=4..5 members with weights 1.." + fmt.Sprint(maxW) + " (exhaustive), vectors with zero-weight members, totals around 2^24, 2^31, 2^32, 2^40, 2^53-4..2^53+8, 2^54, 2^55, 2^60, 2^62, 2^63+-4, 2^64-9..2^64-1 split over 4..12 members (even / one heavy / skewed), random totals of 3..64 bits; per vector every subset (n<=10) or 300 sampled subsets, all quorum pairs (<=4000), id lists with duplicates/strangers/empty ids. distinct = distinct (family, n, total); all are non-trivial (each exercises thresholds and subset verdicts)",
+		"rule":                "committees of 65..204 members (equal / small / random weights; subsets by density, one member named many times, repeats, strangers); weight vectors: every vector of n=4..5 members with weights 1.." + fmt.Sprint(maxW) + " (exhaustive), vectors with zero-weight members, totals around 2^24, 2^31, 2^32, 2^40, 2^53-4..2^53+8, 2^54, 2^55, 2^60, 2^62, 2^63+-4, 2^64-9..2^64-1 split over 4..12 members (even / one heavy / skewed), random totals of 3..64 bits; per vector every subset (n<=10) or 300 sampled subsets, all quorum pairs (<=4000), id lists with duplicates/strangers/empty ids. distinct = distinct (family, n, total); all are non-trivial (each exercises thresholds and subset verdicts); plus committee slices re-filled in place with other weights between evaluations (equal / graded / huge / small weights in turn), every verdict judged against the weights present at the call",
 		"samples":             c.samples,
 		"weight_vectors":      c.vectors,
 		"violations_by_rule":  c.byRule,
